@@ -2,10 +2,13 @@
 //! (properties C14 C15 C16 C17).
 
 mod c14;
+mod c15;
+mod c16;
+mod c17;
 mod tcp;
 mod util;
 
-use vp_common::{Cli, Report, report};
+use vp_common::{Cli, report};
 
 fn main() {
     let cli = Cli::parse();
@@ -17,17 +20,10 @@ fn main() {
     let rt = tokio::runtime::Builder::new_multi_thread().worker_threads(8).enable_all().build().expect("runtime");
     let code = rt.block_on(async {
         match cli.prop.as_str() {
-            "C14" => {
-                let mut report = Report::new(
-                    &cli,
-                    "exploration",
-                    "listeners started from Config values through passage::start on loopback: per listener {max_packet_length, auth_cookie_expiry, timeout, secret}: Status Request frames padded to max / max+1 / 10×max; transfer-intent connections presenting cookies aged 0 / 30 / 3600 s under the configured and under another secret; silent, byte-dripping and stalled-after-step-k clients whose close time is measured against timeout + 5 s; plus a hanging backend behind a directly built Listener; distinct = (listener configuration, case)",
-                );
-                report.assume("cookie ages within 3 s of the configured expiry are not generated (wall clock)");
-                report.assume("closing earlier than the timeout is not judged here; only a connection still open at timeout + 5 s is a violation");
-                c14::run(&cli, &mut report).await;
-                report.finish()
-            }
+            "C14" => c14::run_prop(&cli).await,
+            "C15" => c15::run_prop(&cli).await,
+            "C16" => c16::run_prop(&cli).await,
+            "C17" => c17::run_prop(&cli).await,
             other => {
                 println!("[{other}] INCONCLUSIVE: vp-net does not serve this property yet");
                 2
